@@ -371,6 +371,92 @@ theorem c15_after_any_history (s : St) (hA : AssocInv s.p) (ops : List Op)
   · intro hd; exact (c15_skips_acked p' r hd).2.2
   · intro hc; exact c15_replays_unacked p' r hrows hb (hA' r hrows) hc
 
+/-! ### concurrent acks
+
+`Acked::ack` takes the cursor's semaphore permit BEFORE it reads the cursor (tied to the source below), so several
+acks in flight at once — e.g. the application acking operations of different authors with `join_all` — are applied
+one after the other in SOME order, each atomically. Whatever that order is, every one of them is in the persisted
+cursor afterwards, and none of the acknowledged operations is delivered again after any later history. -/
+
+/-- Any sequence (= any interleaving of atomic) acks: each acked `(author, seq)` is covered by the cursor. -/
+theorem c15_concurrent_acks_all_persist (acks : List (Nat × Nat)) :
+    ∀ (c : Heights Nat) (a h : Nat), (a, h) ∈ acks →
+      ∃ m, lookup a (acks.foldl (fun c e => advance c e.1 e.2) c) = some m ∧ h ≤ m := by
+  induction acks with
+  | nil => intro c a h hm; simp at hm
+  | cons e t ih =>
+    intro c a h hm
+    simp only [List.foldl_cons]
+    rcases List.mem_cons.1 hm with he | ht
+    · -- this ack is applied now; later acks only move the cursor forward
+      subst he
+      have hnow : ∃ m0, lookup a (advance c a h) = some m0 ∧ h ≤ m0 := by
+        rw [lookup_advance]
+        simp only [if_true]
+        cases lookup a c with
+        | none => exact ⟨h, rfl, Nat.le_refl _⟩
+        | some cur => exact ⟨max cur h, rfl, Nat.le_max_right _ _⟩
+      obtain ⟨m0, h0, hle0⟩ := hnow
+      have hmono : ∀ (l : List (Nat × Nat)) (c0 : Heights Nat), CursorLe c0 (l.foldl (fun c e => advance c e.1 e.2) c0) := by
+        intro l
+        induction l with
+        | nil => intro c0 k; exact optLe_refl _
+        | cons x xs ihx =>
+          intro c0 k
+          simp only [List.foldl_cons]
+          exact optLe_trans (cursorLe_advance c0 x.1 x.2 k) (ihx _ k)
+      have := hmono t (advance c a h) a
+      rw [h0] at this
+      cases hl : lookup a (t.foldl (fun c e => advance c e.1 e.2) (advance c a h)) with
+      | none => rw [hl] at this; simp [optLe] at this
+      | some m => rw [hl] at this; simp only [optLe] at this; exact ⟨m, rfl, by omega⟩
+    · exact ih _ a h ht
+
+/-- … so a row acknowledged by one of several concurrent acks is not replayed — right away or after any further
+    history of the code's operations (crashes anywhere). -/
+theorem c15_concurrent_acks_never_redelivered (s : St) (acks : List (Nat × Nat)) (more : List Op) (r : Row)
+    (hack : (r.author, r.seq) ∈ acks) :
+    r ∉ deliveredRows (runOps s (acks.map (fun e => Op.ack e.1 e.2) ++ more)).p := by
+  intro hd
+  have hskip := (c15_skips_acked _ r hd).2.2
+  -- cursor after the acks covers r …
+  have hfold : ∀ (l : List (Nat × Nat)) (s0 : St),
+      (runOps s0 (l.map (fun e => Op.ack e.1 e.2))).p.cursor = l.foldl (fun c e => advance c e.1 e.2) s0.p.cursor := by
+    intro l
+    induction l with
+    | nil => intro s0; rfl
+    | cons x xs ihx => intro s0; simp only [List.map_cons, runOps, List.foldl_cons]; exact ihx (step s0 (.ack x.1 x.2))
+  obtain ⟨m, hm, hle⟩ := c15_concurrent_acks_all_persist acks s.p.cursor r.author r.seq hack
+  -- … and the rest of the history cannot lower it
+  have hsplit : runOps s (acks.map (fun e => Op.ack e.1 e.2) ++ more)
+      = runOps (runOps s (acks.map (fun e => Op.ack e.1 e.2))) more := by
+    simp [runOps, List.foldl_append]
+  rw [hsplit] at hskip
+  have hmono := (c15_cursor_persisted_monotone more (runOps s (acks.map (fun e => Op.ack e.1 e.2)))).2 r.author
+  rw [hfold acks s, hm] at hmono
+  cases hl : lookup r.author (runOps (runOps s (acks.map (fun e => Op.ack e.1 e.2))) more).p.cursor with
+  | none => rw [hl] at hmono; simp [optLe] at hmono
+  | some m' =>
+    rw [hl] at hmono
+    simp only [optLe] at hmono
+    have := hskip m' hl
+    omega
+
+/-- What goes wrong without the permit around the read: two acks computed from the SAME old cursor, the second
+    write overwrites the first — the first acknowledged operation comes back after a restart. -/
+theorem c15_racy_acks_redeliver :
+    let rows : List Row := [⟨0, 0, true, 10⟩, ⟨1, 0, true, 11⟩]
+    let old : Heights Nat := []
+    let write1 := advance old 0 0      -- ack of author 0's operation, computed from `old`
+    let write2 := advance old 1 0      -- ack of author 1's operation, computed from `old` as well
+    let p : Persist := { rows := rows, cursor := write2, assoc := [0, 1] }   -- write2 lands last
+    lookup 0 write1 = some 0 ∧ delivered p = [10] := by decide
+
+/-- The permit is the first thing `Acked::ack` takes — before the topic check and before the cursor is read
+    (same extraction as C07's `c07_ack_source_shape`, re-run for this property on every check). -/
+theorem c15_ack_permit_first_in_source :
+    P2.Extracted.C15.ackFirstStatement = "let _permit = self.semaphore.acquire().await;" := rfl
+
 /-! ### insert and association as TWO transactions lose the first operation of a log
 
 `insertRow` commits the operation, the crash comes before `associate`: the row is stored, has a body, was never
